@@ -319,8 +319,22 @@ pub fn run(tier: &str) -> i32 {
                         }
                         _ => got_lit.clone(),
                     };
-                    acc.evals += 3;
-                    for (form, g) in [("parameter", &got), ("literal", &got_lit), ("array-of-calls", &got_ins)] {
+                    // mixed forms: a constant subject (written in place / bound outside and captured)
+                    // with a run-time index, and a run-time subject with a literal index
+                    let run_fn = |text: &str, arg: Variable| -> String {
+                        match guard(|| Code::parse(interp, text).map(|c| c.exec())) {
+                            Ok(Ok(Ok(Variable::Function(f)))) => call(&f, vec![arg]),
+                            Ok(Err(e)) if core::is_exec_kind(&e) => format!("error:{}", core::error_kind(&e)),
+                            Ok(Err(e)) => format!("REJECTED {}", core::error_kind(&e)),
+                            Err(Stop::Panic(p)) => format!("PANIC {} @{}", p.short_msg(), p.file()),
+                            _ => "DEFINE FAILED".into(),
+                        }
+                    };
+                    let got_const_subject = run_fn(&format!("f := (i: int) -> any {{ return {subject_lit}[i] }}"), i.into());
+                    let got_captured_subject = run_fn(&format!("k := {subject_lit}; f := (i: int) -> any {{ return k[i] }}"), i.into());
+                    let got_literal_index = run_fn(&format!("f := (s: [any] | string) -> any {{ return s[{}] }}", int_lit(i)), subject_val.clone());
+                    acc.evals += 6;
+                    for (form, g) in [("parameter", &got), ("literal", &got_lit), ("array-of-calls", &got_ins), ("constant-subject-parameter-index", &got_const_subject), ("captured-subject-parameter-index", &got_captured_subject), ("parameter-subject-literal-index", &got_literal_index)] {
                         acc.outcomes.insert(g.chars().take(20).collect());
                         if *g != expect {
                             acc.violations.push(Violation {
@@ -362,6 +376,54 @@ pub fn run(tier: &str) -> i32 {
                         Err(Stop::Panic(p)) => format!("PANIC {} @{}", p.short_msg(), p.file()),
                         Err(Stop::Exhausted) => "EXHAUSTED".into(),
                     };
+                    // every other split of (subject, the bounds that are present) into literals and
+                    // run-time parameters: bit 0 = subject, bits 1..3 = start, stop, step run-time
+                    let mut masked: Vec<(String, String)> = Vec::new();
+                    let present = [true, start.is_some(), stop.is_some(), step.is_some()];
+                    for mask in 1u8..15 {
+                        if (0..4).any(|k| mask & (1 << k) != 0 && !present[k]) || mask == 1 {
+                            continue; // a run-time bound that is absent; mask 1 is the form above
+                        }
+                        if (0..4).all(|k| !present[k] || mask & (1 << k) != 0) {
+                            continue; // all run-time: the parameter form
+                        }
+                        let rt = |k: usize| mask & (1 << k) != 0;
+                        let mut params = Vec::new();
+                        let mut margs = Vec::new();
+                        if rt(0) {
+                            params.push("s: [any] | string".to_string());
+                            margs.push(subject_val.clone());
+                        }
+                        for (k, (name, v)) in [("a", start), ("b", stop), ("c", step)].into_iter().enumerate() {
+                            if rt(k + 1) {
+                                params.push(format!("{name}: int"));
+                                margs.push(v.unwrap().into());
+                            }
+                        }
+                        let pick = |k: usize, name: &str, lit: &Option<String>| if rt(k) { Some(name.to_string()) } else { lit.clone() };
+                        let (ta, tb, tc) = (pick(1, "a", &la), pick(2, "b", &lb), pick(3, "c", &lc));
+                        let body = shape_text(if rt(0) { "s" } else { &subject_lit }, ta.as_deref(), tb.as_deref(), tc.as_deref(), shape);
+                        let mtext = format!("f := ({}) -> any {{ return {body} }}", params.join(", "));
+                        let g = match guard(|| Code::parse(interp, &mtext)) {
+                            Ok(Ok(code)) => match guard(|| code.exec()) {
+                                Ok(Ok(Variable::Function(g))) => call(&g, margs),
+                                _ => "DEFINE FAILED".to_string(),
+                            },
+                            Ok(Err(e)) => format!("REJECTED {}", core::error_kind(&e)),
+                            Err(Stop::Panic(p)) => format!("PANIC {} @{}", p.short_msg(), p.file()),
+                            Err(Stop::Exhausted) => "EXHAUSTED".into(),
+                        };
+                        acc.evals += 1;
+                        masked.push((format!("run-time-operands={mask:04b}"), g));
+                    }
+                    for (form, g) in &masked {
+                        if *g != expect && g != "EXHAUSTED" {
+                            acc.violations.push(Violation {
+                                sig: format!("C09|slice{shape}|form={form}|kind={}|n={n}|step={}|{}", if matches!(seq, Seq::Str(_)) { "string" } else { "array" }, idx_class(step, n), if g.starts_with("PANIC") { "panic" } else { "wrong-selection" }),
+                                detail: json!({"kind": "program", "stdlib": true, "text": text, "form": form, "which operands are run-time (bit 0 subject, 1 start, 2 stop, 3 step)": form, "expected": expect, "observed": g}),
+                            });
+                        }
+                    }
                     acc.evals += 3;
                     for (form, g) in [("parameter", &got), ("literal", &got_lit), ("parameter-subject-literal-bounds", &got_mixed)] {
                         acc.outcomes.insert(g.chars().take(20).collect());
